@@ -92,6 +92,11 @@ func (k Keeper) RecvPacket(goCtx context.Context, msg *packettypes.MsgRecvPacket
 		if err := k.PacketKeeper.WriteAcknowledgement(ctx, &packet, ackBz); err != nil {
 			return nil, err
 		}
+		if result.Code != 0 {
+			// the callback reported a failure: the source chain refunds on this acknowledgement,
+			// so nothing the callback did before it gave up may be committed
+			return &packettypes.MsgRecvPacketResponse{}, nil
+		}
 	} else if _, found := k.ClientKeeper.GetClientState(ctx, packet.GetDstChain()); !found {
 		// Write ErrAck
 		errAckBz, err := packettypes.NewAcknowledgement(1, []byte{}, "dstChain not found", relayer, packet.FeeOption).ABIPack()
